@@ -128,7 +128,11 @@ Definition check_hist (sampled http fresh : bool) (ps0 : list (obs_spec * observ
   if orc then
     (if seq_model_eq ring_index prints sampled http newHist ps then 0 else 1)
   else
-    (if fresh && seq_model_eq ring_index_old prints_old sampled http newHist ps then 3 else 2).
+    (* does the model of the unfixed code (or of the code with only one of the two histogram fixes)
+       reproduce the observation? *)
+    (if fresh && (seq_model_eq ring_index_old prints_old sampled http newHist ps ||
+                  seq_model_eq ring_index prints_old sampled http newHist ps ||
+                  seq_model_eq ring_index_old prints sampled http newHist ps) then 3 else 2).
 
 (* ---------- concurrent observers + reader ---------- *)
 Definition check_conc (sampled http : bool) (all : obs_spec) (reps : list observed) : N :=
